@@ -69,6 +69,9 @@ type harness struct {
 const gcBudget = 96 << 20
 
 func (h *harness) gcTick() {
+	if h.allocs == nil {
+		return
+	}
 	metrics.Read(h.allocs)
 	if a := h.allocs[0].Value.Uint64(); a-h.lastGC > gcBudget {
 		runtime.GC()
@@ -577,6 +580,33 @@ func main() {
 		if i < 64 && n <= 6 && c.WantSample() {
 			c.Sample(map[string]interface{}{"ops": describeAll(ops), "bytes": vlib.Hex(res.bytes), "reference_len": res.refLen})
 		}
+	})
+
+	// ------------------------------------------------ (c) programs, many streams at once -----
+	// Independent streams in different goroutines must not influence each other (a header
+	// template or scratch buffer shared between streams would only show here). Same oracle as
+	// (b); every parallel case has its own harness state.
+	c.ParallelCases("programs-parallel", c.N(8*16*4, 8*16*40), 8, func(i int, r *vlib.Rand) {
+		hp := &harness{c: c, rp: &reporter{n: map[string]int{}}} // allocs == nil: no GC ticks from here
+		for k := 0; k < 40; k++ {
+			n := r.Range(1, 24)
+			big := 1
+			ops := make([]op, n)
+			for j := range ops {
+				ops[j] = genOp(r, &big)
+				// make the 2- and 4-byte length forms of blobs and texts common
+				if ops[j].k == kBlob && r.Bool() {
+					ops[j].b = r.Bytes([]int{254, 255, 256, 300, 400, 65535, 65536}[r.Intn(7)])
+				}
+				if ops[j].k == kText && r.Bool() {
+					ops[j].s = r.AsciiN([]int{254, 255, 256, 300, 400, 65535, 65536}[r.Intn(7)])
+				}
+			}
+			hp.runProgram("programs-parallel", ops)
+		}
+		c.Count("parallel_programs", 40)
+		c.Eval(39)
+		c.DistinctEnum(1)
 	})
 
 	heapMark(c, "programs")
